@@ -107,20 +107,28 @@ def run(ctx: Ctx, tier: str) -> Result:
         res.ok("C13.MATCH", {"match": why})
     else:
         res.fail(Finding("C13.MATCH", rem.qname, cmps[0] if cmps else "<match>", rem.loc(), why))
-    dels = [n for n in t.nodes_in(rem) if (isinstance(n, ast.Delete) and any(custom_field in norm(x) for x in n.targets)) or
-            (isinstance(n, ast.Call) and isinstance(n.func, ast.Attribute) and n.func.attr in ("remove", "pop") and norm(n.func.value) == custom_field)]
-    reassign = [n for n in t.nodes_in(rem, ast.Assign) if norm(n.targets[0]) == custom_field]
+    def _dels_in(fn):
+        return [n for n in t.nodes_in(fn) if (isinstance(n, ast.Delete) and any(custom_field in norm(x) for x in n.targets)) or
+                (isinstance(n, ast.Call) and isinstance(n.func, ast.Attribute) and n.func.attr in ("remove", "pop") and norm(n.func.value) == custom_field)]
+    srch, srch_call = rem, None
+    if not _dels_in(rem):
+        for c_ in t.calls_in(rem):
+            for g_ in t.resolve_call(c_, rem).repo:
+                if g_.cls is rem.cls and g_.name.startswith("_") and _dels_in(g_):
+                    srch, srch_call = g_, c_
+    dels = _dels_in(srch)
+    reassign = [n for n in t.nodes_in(srch, ast.Assign) if norm(n.targets[0]) == custom_field]
     if len(dels) == 1 and not reassign:
         dl = dels[0]
-        lps = paths.enclosing_loops(p, dl, rem)
+        lps = paths.enclosing_loops(p, dl, srch)
         st = paths.stmt_of(p, dl)
         pos = paths.block_position(p, st)
         after = getattr(pos[0], pos[1])[pos[2] + 1:] if pos else []
         exits = not lps or paths.always_exits(after) or any(isinstance(s_, (ast.Break, ast.Return)) for s_ in after)
         if exits:
-            res.ok("C13.MATCH", {"removes at most one entry per call": rem.loc(dl)})
+            res.ok("C13.MATCH", {"removes at most one entry per call": srch.loc(dl)})
         else:
-            res.fail(Finding("C13.MATCH", rem.qname, dl, rem.loc(dl), "removal continues after the first match (mutating the list it iterates / removing several registrations)"))
+            res.fail(Finding("C13.MATCH", rem.qname, dl, srch.loc(dl), "removal continues after the first match (mutating the list it iterates / removing several registrations)"))
     elif reassign:
         res.fail(Finding("C13.MATCH", rem.qname, reassign[0], rem.loc(reassign[0]), "remove_custom rebuilds the custom list: may remove several registrations"))
     else:
@@ -128,26 +136,27 @@ def run(ctx: Ctx, tier: str) -> Result:
     # the entry that is deleted is the one that was looked up: the whole list is searched, and the delete is guarded by
     # identity (or equality) of the element with the registration's own trigger
     for dl in dels:
-        lps_ = [l for l in paths.enclosing_loops(p, dl, rem) if isinstance(l, ast.For)]
+        lps_ = [l for l in paths.enclosing_loops(p, dl, srch) if isinstance(l, ast.For)]
         if not lps_:
             continue
         it_ = lps_[0].iter
         whole = norm(it_) in (custom_field, "enumerate(%s)" % custom_field, "list(%s)" % custom_field, "list(enumerate(%s))" % custom_field,
                               "range(len(%s))" % custom_field, "reversed(list(enumerate(%s)))" % custom_field)
         elem = norm(lps_[0].target.elts[1]) if isinstance(lps_[0].target, ast.Tuple) and len(lps_[0].target.elts) == 2 else norm(lps_[0].target)
-        conds_ = [(c_, pol) for c_, pol in paths.conditions(p, dl, rem) if paths.within(p, c_, lps_[0])]
+        conds_ = [(c_, pol) for c_, pol in paths.conditions(p, dl, srch) if paths.within(p, c_, lps_[0])]
         ident = [c_ for c_, pol in conds_ if pol and isinstance(c_, ast.Compare) and len(c_.ops) == 1 and isinstance(c_.ops[0], (ast.Is, ast.Eq))
                  and elem in (norm(c_.left), norm(c_.comparators[0]))]
         if whole and ident and len(conds_) == len(ident):
             res.ok("C13.MATCH", {"searches the whole list; deletes the element that is the registration's trigger": norm(ident[0])})
         else:
-            res.fail(Finding("C13.MATCH", rem.qname, dl, rem.loc(dl), "the entry deleted is not found by comparing every registered trigger with the one looked up "
+            res.fail(Finding("C13.MATCH", rem.qname, dl, srch.loc(dl), "the entry deleted is not found by comparing every registered trigger with the one looked up "
                              "(iterates `%s`, guarded by %s): another registration is removed, or none" % (norm(it_)[:50], [norm(c_)[:40] for c_, _ in conds_])))
     # the only way out before the deletion is `nothing was registered under this handle`
     if lookups and dels:
         lk_st = paths.stmt_of(p, lookups[0])
         lk_name = norm(lk_st.targets[0]) if isinstance(lk_st, ast.Assign) else None
-        for r_ in [n for n in t.nodes_in(rem, ast.Return) if n.lineno < dels[0].lineno and not paths.enclosing_loops(p, n, rem)]:
+        before_ = dels[0].lineno if srch is rem else srch_call.lineno
+        for r_ in [n for n in t.nodes_in(rem, ast.Return) if n.lineno < before_ and not paths.enclosing_loops(p, n, rem)]:
             cs_ = [(norm(c_), pol) for c_, pol in paths.conditions(p, r_, rem)]
             if lk_name and cs_ in ([("%s is None" % lk_name, True)], [("%s is not None" % lk_name, False)], [("not %s" % lk_name, True)]):
                 res.ok("C13.MATCH", {"returns early only for an unknown handle": cs_[0][0]})
@@ -285,8 +294,8 @@ def run(ctx: Ctx, tier: str) -> Result:
     if len(rr) == 1 and isinstance(rr[0].value, ast.Call) and trc in t.resolve_call(rr[0].value, reg).ctor and rr[0].value.args:
         a0 = rr[0].value.args[0]
         if isinstance(a0, ast.Name):
-            bs = [b for k, b in t.local_bindings(reg, a0.id) if k == "assign"]
-            okr = len(bs) == 1 and bs[0][1] is ac[0]
+            bs = [(b[1] if k == "assign" else b.value) for k, b in t.local_bindings(reg, a0.id) if k in ("assign", "ann")]
+            okr = len(bs) == 1 and bs[0] is ac[0]
         else:
             okr = a0 is ac[0]
     if okr:
